@@ -375,6 +375,50 @@ def r11_6(ctx, fx):
             ctx.ob("R11.6", "on_validation_result/pending{Open}=>peer-Closed,pending{Closed}=>peer-removed", bool(only_o) and bool(only_c), site=fn.site(sw[0]), cfg=fx.cfg,
                    detail="Closed assignments only on the Open edge: %d; removals only on the Closed edge: %d" % (len(only_o), len(only_c)))
 
+SAFE_SUB = {"inbound": {"Closed", "Validating", "Open"}, "outbound": {"Closed", "OutboundInitiated", "Open"}}
+
+
+def r11_7(ctx, fx):
+    """no negotiation entry outlives the Validating state: the HandshakeService holds the substream of a peer exactly while its
+    inbound sub-state is ReadingHandshake/SendingHandshake or its outbound sub-state is Negotiating.  Wherever a handler leaves
+    `Validating` for `Closed` (or forgets the peer), each direction is either removed from the service on every path to that point,
+    or pinned by the match to a sub-state that has nothing in the service.  A survivor produces a handshake event for a Closed peer
+    later: a debug_assert!(false) (panic of the whole protocol task) or a peer left Poisoned."""
+    n = 0
+    for key in sorted(fx.find(r"^protocol::notification::NotificationProtocol::on_\w+::\{closure#0\}$")):
+        fn = fx.fn(key)
+        sws = [sw for sw in fn.discr_switches() if sw[2].endswith("notification::PeerState") and "Validating" in sw[3]]
+        if not sws:
+            continue
+        region = set()
+        for sw in sws:
+            labs = fn.variant_edges(sw, "Validating")
+            region |= fn.reach([n_ for n_, l in fn.succs(sw[0]) if l in labs])
+        sites = [(nd, "state=Closed") for nd, _ in fn.aggregates(r"notification::PeerState$", "Closed") if nd in region]
+        sites += [(c.node, "peers.remove") for c in fn.calls(r"HashMap(<.*>)?::remove$") if c.node in region and ".peers" in fn.recv(c)]
+        if not sites:
+            continue
+        ctx.bodies.add((fx.cfg, key))
+        for d in ("inbound", "outbound"):
+            rm = [c.node for c in fn.calls(r"HandshakeService::remove_%s$" % d)]
+            safe = set()
+            for sw in fn.discr_switches():
+                if not re.search(r"@Validating\.%s$" % d, fn.origin({"c": list(sw[1])})):
+                    continue
+                node, place, adt, m, other, other_vars = sw
+                for v, lab in m.items():
+                    if v in SAFE_SUB[d]:
+                        safe.add((node, lab))
+                if other_vars and set(other_vars) <= SAFE_SUB[d]:
+                    safe.add((node, other))
+            for i, (nd, what) in enumerate(sites):
+                n += 1
+                dominated = bool(rm) and nd not in fn.reach([fn.entry], avoid=rm)
+                pinned = bool(safe) and nd not in fn.reach([fn.entry], cut=safe)
+                ctx.ob("R11.7", "%s/leave-Validating#%d(%s):%s-not-left-in-negotiation" % (short(key), i, what, d), dominated or pinned, site=fn.site(nd), cfg=fx.cfg,
+                       detail="remove_%s on every path: %s; %s sub-state pinned to %s by the match: %s" % (d, dominated, d, sorted(SAFE_SUB[d]), pinned))
+    ctx.anchor("R11.7", "leave-Validating sites x directions", n, 8, cfg=fx.cfg)
+
 
 def run(ctx):
     fx = ctx.facts("default")
@@ -384,5 +428,6 @@ def run(ctx):
     r11_3(ctx, fx)
     r11_4(ctx, fx)
     r11_5(ctx, fx)
+    r11_7(ctx, fx)
     ctx.assume("arms ending in debug_assert!(false) diverge in the analysed profile and are not exits (stated beliefs of the developers)")
     ctx.assume("a dropped oneshot shutdown sender also wakes the connection task (Receiver resolves with Err), which closes silently")
